@@ -5,6 +5,10 @@ package aescbcaead
 // Contracts for govc (contract-based deductive verification; see /verif/DESIGN.md).
 // This file holds only comments and is compiled only with -tags verif.
 
+// C17's quantifier is "every exported function of this package taking []byte": the check fails for one without a
+// contract tagged C17 that has a modifies clause.
+//@ coverage exported-bytes C17
+
 //@ type aesCBCAEAD
 //@   invariant [s.sizes] (self.encKeySize == 16 || self.encKeySize == 24 || self.encKeySize == 32) && self.macKeySize >= 0
 //@   invariant [s.tag] 0 <= self.tagSize && self.tagSize <= hashfnsize(self.macAlg) && self.tagSize <= 64
@@ -13,13 +17,20 @@ package aescbcaead
 //@   invariant [C03.cbchmac.enckey] self.encKey == self.key[len(self.key)-self.encKeySize:len(self.key)]
 
 //@ func (*aesCBCAEAD).Overhead
+//@   refines (crypto/cipher.AEAD).Overhead
 //@   tags C03 C07
-//@   requires aead != nil
+//@   requires aead != nil && inv(aead)
+//@   requires [aead.ghosts] box(aead, "*github.com/dapr/kit/crypto/aescbcaead.aesCBCAEAD").overhead == aead.tagSize && box(aead, "*github.com/dapr/kit/crypto/aescbcaead.aesCBCAEAD").noncesize == 16
+//@        && !box(aead, "*github.com/dapr/kit/crypto/aescbcaead.aesCBCAEAD").exactoverhead && box(aead, "*github.com/dapr/kit/crypto/aescbcaead.aesCBCAEAD").cbcpadded
 //@   modifies nothing
 //@   ensures result == aead.tagSize
 
 //@ func (*aesCBCAEAD).NonceSize
+//@   refines (crypto/cipher.AEAD).NonceSize
 //@   tags C03 C07
+//@   requires aead != nil && inv(aead)
+//@   requires [aead.ghosts] box(aead, "*github.com/dapr/kit/crypto/aescbcaead.aesCBCAEAD").overhead == aead.tagSize && box(aead, "*github.com/dapr/kit/crypto/aescbcaead.aesCBCAEAD").noncesize == 16
+//@        && !box(aead, "*github.com/dapr/kit/crypto/aescbcaead.aesCBCAEAD").exactoverhead && box(aead, "*github.com/dapr/kit/crypto/aescbcaead.aesCBCAEAD").cbcpadded
 //@   modifies nothing
 //@   ensures result == 16
 
@@ -37,7 +48,7 @@ package aescbcaead
 //@        && 72057594037927936 * h.wlog[old(h.wpos) + len(additionalData) + len(nonce) + len(ciphertext) + 0] + 281474976710656 * h.wlog[old(h.wpos) + len(additionalData) + len(nonce) + len(ciphertext) + 1] + 1099511627776 * h.wlog[old(h.wpos) + len(additionalData) + len(nonce) + len(ciphertext) + 2]
 //@         + 4294967296 * h.wlog[old(h.wpos) + len(additionalData) + len(nonce) + len(ciphertext) + 3] + 16777216 * h.wlog[old(h.wpos) + len(additionalData) + len(nonce) + len(ciphertext) + 4] + 65536 * h.wlog[old(h.wpos) + len(additionalData) + len(nonce) + len(ciphertext) + 5]
 //@         + 256 * h.wlog[old(h.wpos) + len(additionalData) + len(nonce) + len(ciphertext) + 6] + h.wlog[old(h.wpos) + len(additionalData) + len(nonce) + len(ciphertext) + 7] == 8 * len(additionalData)
-//@   ensures [C03.cbchmac.truncate] forall k :: 0 <= k && k < l ==> result[k] == digestbyte(h.hkey, h.hkeylen, h.wlog, h.wpos, k)
+//@   ensures [C03.cbchmac.truncate] forall k :: 0 <= k && k < l ==> result[k] == digestbyte(h.halg, h.hkey, h.hkeylen, h.wlog, h.wpos, k)
 
 //@ func NewAESCBCAEAD
 //@   tags C03 C07 C17
@@ -52,63 +63,72 @@ package aescbcaead
 //@   ensures [C03.cbchmac.params] result1 == nil ==> (deref(result, "github.com/dapr/kit/crypto/aescbcaead.aesCBCAEAD").tagSize == p.tagSize
 //@        && deref(result, "github.com/dapr/kit/crypto/aescbcaead.aesCBCAEAD").macAlg == p.macAlg
 //@        && deref(result, "github.com/dapr/kit/crypto/aescbcaead.aesCBCAEAD").key == p.key)
-//@   ensures [C03.cbchmac.aead] result1 == nil ==> (result.overhead == p.tagSize && result.noncesize == 16)
+// what the returned cipher.AEAD value is (interface ghosts of libspec crypto.spec): Overhead() / NonceSize(), and the
+// length law of the AEAD_AES_CBC_HMAC_SHA2 family (PKCS#7-padded body followed by the tag; not "exactly Overhead() longer")
+//@   ensures [C03.cbchmac.aead] result1 == nil ==> (result.overhead == p.tagSize && result.noncesize == 16 && !result.exactoverhead && result.cbcpadded)
 //@   at return ghost result.overhead = p.tagSize
 //@   at return ghost result.noncesize = 16
+//@   at return ghost result.exactoverhead = false
+//@   at return ghost result.cbcpadded = true
 
 //@ func NewAESCBC128SHA256
 //@   tags C03 C07 C17
 //@   modifies nothing
 //@   ensures [C03.cbchmac.128.keysize] len(key) == 32 <==> result1 == nil
 //@   ensures [C03.cbchmac.128.noaead] result1 != nil ==> result == nil
-//@   ensures [C03.cbchmac.128.aead] result1 == nil ==> (result != nil && result.overhead == 16 && result.noncesize == 16)
+//@   ensures [C03.cbchmac.128.aead] result1 == nil ==> (result != nil && result.overhead == 16 && result.noncesize == 16 && !result.exactoverhead && result.cbcpadded)
 //@   ensures [C03.cbchmac.128.split] result1 == nil ==> (typeis(result, "*github.com/dapr/kit/crypto/aescbcaead.aesCBCAEAD") && fresh(result)
 //@        && inv(deref(result, "github.com/dapr/kit/crypto/aescbcaead.aesCBCAEAD"))
 //@        && deref(result, "github.com/dapr/kit/crypto/aescbcaead.aesCBCAEAD").macKey == key[0:16]
 //@        && deref(result, "github.com/dapr/kit/crypto/aescbcaead.aesCBCAEAD").encKey == key[16:32]
-//@        && deref(result, "github.com/dapr/kit/crypto/aescbcaead.aesCBCAEAD").tagSize == 16)
-//@   at before call NewAESCBCAEAD assume hashfnsize(arg0.macAlg) == 32   // stdlib fact: crypto.SHA256.New digests are 32 bytes
+//@        && deref(result, "github.com/dapr/kit/crypto/aescbcaead.aesCBCAEAD").tagSize == 16
+//@        && isfunc(deref(result, "github.com/dapr/kit/crypto/aescbcaead.aesCBCAEAD").macAlg, "(crypto.Hash).New$bound") && bound(deref(result, "github.com/dapr/kit/crypto/aescbcaead.aesCBCAEAD").macAlg, 0, "crypto.Hash") == 5)
+//@   at before call NewAESCBCAEAD assert [C03.cbchmac.hash5] isfunc(arg0.macAlg, "(crypto.Hash).New$bound") && bound(arg0.macAlg, 0, "crypto.Hash") == 5   // RFC 7518 5.2.3-5.2.5: the MAC is HMAC with SHA-256 (crypto.Hash value 5); its digest size 32 follows (hashfnsize, hmac_binary.spec)
 
 //@ func NewAESCBC192SHA384
 //@   tags C03 C07 C17
 //@   modifies nothing
 //@   ensures [C03.cbchmac.192.keysize] len(key) == 48 <==> result1 == nil
 //@   ensures [C03.cbchmac.192.noaead] result1 != nil ==> result == nil
-//@   ensures [C03.cbchmac.192.aead] result1 == nil ==> (result != nil && result.overhead == 24 && result.noncesize == 16)
+//@   ensures [C03.cbchmac.192.aead] result1 == nil ==> (result != nil && result.overhead == 24 && result.noncesize == 16 && !result.exactoverhead && result.cbcpadded)
 //@   ensures [C03.cbchmac.192.split] result1 == nil ==> (typeis(result, "*github.com/dapr/kit/crypto/aescbcaead.aesCBCAEAD") && fresh(result)
 //@        && inv(deref(result, "github.com/dapr/kit/crypto/aescbcaead.aesCBCAEAD"))
 //@        && deref(result, "github.com/dapr/kit/crypto/aescbcaead.aesCBCAEAD").macKey == key[0:24]
 //@        && deref(result, "github.com/dapr/kit/crypto/aescbcaead.aesCBCAEAD").encKey == key[24:48]
-//@        && deref(result, "github.com/dapr/kit/crypto/aescbcaead.aesCBCAEAD").tagSize == 24)
-//@   at before call NewAESCBCAEAD assume hashfnsize(arg0.macAlg) == 48   // stdlib fact: crypto.SHA384.New digests are 48 bytes
+//@        && deref(result, "github.com/dapr/kit/crypto/aescbcaead.aesCBCAEAD").tagSize == 24
+//@        && isfunc(deref(result, "github.com/dapr/kit/crypto/aescbcaead.aesCBCAEAD").macAlg, "(crypto.Hash).New$bound") && bound(deref(result, "github.com/dapr/kit/crypto/aescbcaead.aesCBCAEAD").macAlg, 0, "crypto.Hash") == 6)
+//@   at before call NewAESCBCAEAD assert [C03.cbchmac.hash6] isfunc(arg0.macAlg, "(crypto.Hash).New$bound") && bound(arg0.macAlg, 0, "crypto.Hash") == 6   // RFC 7518 5.2.3-5.2.5: the MAC is HMAC with SHA-384 (crypto.Hash value 6); its digest size 48 follows (hashfnsize, hmac_binary.spec)
 
 //@ func NewAESCBC256SHA384
 //@   tags C03 C07 C17
 //@   modifies nothing
 //@   ensures [C03.cbchmac.256s384.keysize] len(key) == 56 <==> result1 == nil
 //@   ensures [C03.cbchmac.256s384.noaead] result1 != nil ==> result == nil
-//@   ensures [C03.cbchmac.256s384.aead] result1 == nil ==> (result != nil && result.overhead == 24 && result.noncesize == 16)
+//@   ensures [C03.cbchmac.256s384.aead] result1 == nil ==> (result != nil && result.overhead == 24 && result.noncesize == 16 && !result.exactoverhead && result.cbcpadded)
 //@   ensures [C03.cbchmac.256s384.split] result1 == nil ==> (typeis(result, "*github.com/dapr/kit/crypto/aescbcaead.aesCBCAEAD") && fresh(result)
 //@        && inv(deref(result, "github.com/dapr/kit/crypto/aescbcaead.aesCBCAEAD"))
 //@        && deref(result, "github.com/dapr/kit/crypto/aescbcaead.aesCBCAEAD").macKey == key[0:24]
 //@        && deref(result, "github.com/dapr/kit/crypto/aescbcaead.aesCBCAEAD").encKey == key[24:56]
-//@        && deref(result, "github.com/dapr/kit/crypto/aescbcaead.aesCBCAEAD").tagSize == 24)
-//@   at before call NewAESCBCAEAD assume hashfnsize(arg0.macAlg) == 48   // stdlib fact: crypto.SHA384.New digests are 48 bytes
+//@        && deref(result, "github.com/dapr/kit/crypto/aescbcaead.aesCBCAEAD").tagSize == 24
+//@        && isfunc(deref(result, "github.com/dapr/kit/crypto/aescbcaead.aesCBCAEAD").macAlg, "(crypto.Hash).New$bound") && bound(deref(result, "github.com/dapr/kit/crypto/aescbcaead.aesCBCAEAD").macAlg, 0, "crypto.Hash") == 6)
+//@   at before call NewAESCBCAEAD assert [C03.cbchmac.hash6] isfunc(arg0.macAlg, "(crypto.Hash).New$bound") && bound(arg0.macAlg, 0, "crypto.Hash") == 6   // RFC 7518 5.2.3-5.2.5: the MAC is HMAC with SHA-384 (crypto.Hash value 6); its digest size 48 follows (hashfnsize, hmac_binary.spec)
 
 //@ func NewAESCBC256SHA512
 //@   tags C03 C07 C17
 //@   modifies nothing
 //@   ensures [C03.cbchmac.256.keysize] len(key) == 64 <==> result1 == nil
 //@   ensures [C03.cbchmac.256.noaead] result1 != nil ==> result == nil
-//@   ensures [C03.cbchmac.256.aead] result1 == nil ==> (result != nil && result.overhead == 32 && result.noncesize == 16)
+//@   ensures [C03.cbchmac.256.aead] result1 == nil ==> (result != nil && result.overhead == 32 && result.noncesize == 16 && !result.exactoverhead && result.cbcpadded)
 //@   ensures [C03.cbchmac.256.split] result1 == nil ==> (typeis(result, "*github.com/dapr/kit/crypto/aescbcaead.aesCBCAEAD") && fresh(result)
 //@        && inv(deref(result, "github.com/dapr/kit/crypto/aescbcaead.aesCBCAEAD"))
 //@        && deref(result, "github.com/dapr/kit/crypto/aescbcaead.aesCBCAEAD").macKey == key[0:32]
 //@        && deref(result, "github.com/dapr/kit/crypto/aescbcaead.aesCBCAEAD").encKey == key[32:64]
-//@        && deref(result, "github.com/dapr/kit/crypto/aescbcaead.aesCBCAEAD").tagSize == 32)
-//@   at before call NewAESCBCAEAD assume hashfnsize(arg0.macAlg) == 64   // stdlib fact: crypto.SHA512.New digests are 64 bytes
+//@        && deref(result, "github.com/dapr/kit/crypto/aescbcaead.aesCBCAEAD").tagSize == 32
+//@        && isfunc(deref(result, "github.com/dapr/kit/crypto/aescbcaead.aesCBCAEAD").macAlg, "(crypto.Hash).New$bound") && bound(deref(result, "github.com/dapr/kit/crypto/aescbcaead.aesCBCAEAD").macAlg, 0, "crypto.Hash") == 7)
+//@   at before call NewAESCBCAEAD assert [C03.cbchmac.hash7] isfunc(arg0.macAlg, "(crypto.Hash).New$bound") && bound(arg0.macAlg, 0, "crypto.Hash") == 7   // RFC 7518 5.2.3-5.2.5: the MAC is HMAC with SHA-512 (crypto.Hash value 7); its digest size 64 follows (hashfnsize, hmac_binary.spec)
 
 //@ func (*aesCBCAEAD).Seal
+//@   refines (crypto/cipher.AEAD).Seal
 //@   tags C03 C07 C17
 //@   ghost padded slice
 //@   ghost blk iface
@@ -117,7 +137,10 @@ package aescbcaead
 //@   ghost cbcdst slice
 //@   ghost padb bytes
 //@   requires aead != nil && inv(aead)
-//@   modifies dst[len(dst):cap(dst)]
+//@   requires [aead.ghosts] box(aead, "*github.com/dapr/kit/crypto/aescbcaead.aesCBCAEAD").overhead == aead.tagSize && box(aead, "*github.com/dapr/kit/crypto/aescbcaead.aesCBCAEAD").noncesize == 16
+//@        && !box(aead, "*github.com/dapr/kit/crypto/aescbcaead.aesCBCAEAD").exactoverhead && box(aead, "*github.com/dapr/kit/crypto/aescbcaead.aesCBCAEAD").cbcpadded
+// C17: "the only memory a call may write is the destination buffer": exactly the bytes of the sealed message behind len(dst)
+//@   modifies dst[len(dst):len(dst)+len(plaintext)+16-len(plaintext)%16+aead.tagSize]
 //@   panics when len(nonce) != 16
 //@   ensures [C03.cbchmac.seal.len] len(result) == len(dst) + (len(plaintext) + 16 - len(plaintext) % 16) + aead.tagSize
 //@   ensures [C03.cbchmac.seal.dst] cap(dst) >= len(result) ? result == dst[0:len(result)] : fresh(result)
@@ -127,11 +150,12 @@ package aescbcaead
 //@        && (forall k :: len(plaintext) <= k && k < len(padded) ==> padb[k] == 16 - len(plaintext) % 16)
 //@   ensures [C03.cbchmac.seal.mackey] fresh(hh) && hh.hkeylen == len(aead.macKey)
 //@        && (aead.macKey.base != result.base ==> (forall k :: 0 <= k && k < len(aead.macKey) ==> aead.macKey[k] == hh.hkey[k]))
+//@   ensures [C03.cbchmac.seal.machash] hh.halg == aead.macAlg
 //@   ensures [C03.cbchmac.seal.maclen] hh.wpos == len(additionalData) + 16 + len(padded) + 8
 //@   ensures [C03.cbchmac.seal.mac.ct] forall k :: 0 <= k && k < len(padded) ==> hh.wlog[len(additionalData) + 16 + k] == result[len(dst) + k]
 //@   ensures [C03.cbchmac.seal.mac.ad] (additionalData.base != result.base) ==> (forall k :: 0 <= k && k < len(additionalData) ==> hh.wlog[k] == additionalData[k])
 //@   ensures [C03.cbchmac.seal.mac.iv] (nonce.base != result.base) ==> (forall k :: 0 <= k && k < 16 ==> hh.wlog[len(additionalData) + k] == nonce[k])
-//@   ensures [C03.cbchmac.seal.tag] forall k :: 0 <= k && k < aead.tagSize ==> result[len(dst) + len(padded) + k] == digestbyte(hh.hkey, hh.hkeylen, hh.wlog, hh.wpos, k)
+//@   ensures [C03.cbchmac.seal.tag] forall k :: 0 <= k && k < aead.tagSize ==> result[len(dst) + len(padded) + k] == digestbyte(hh.halg, hh.hkey, hh.hkeylen, hh.wlog, hh.wpos, k)
 //@   at call PadPKCS7#0 ghost padded = res0
 //@   at call PadPKCS7#0 ghost padb = lambda j :: res0[j]
 //@   at call NewCipher#0 ghost blk = res0
@@ -141,18 +165,28 @@ package aescbcaead
 //@   at before call NewCipher#0 assert [C03.cbchmac.seal.enckey] arg0 == aead.encKey
 //@   at before call NewCBCEncrypter#0 assert [C03.cbchmac.seal.iv] arg0 == blk && arg1 == nonce
 //@   at before call CryptBlocks#0 assert [C03.cbchmac.seal.cbc] arg0 == mode && arg2 == padded
+//@   at before call CryptBlocks#0 assert [C03.cbchmac.seal.mode] arg0.modeblock.bkey == aead.encKey && arg0.modeiv == nonce && !arg0.modedec
+//@   at before call PadPKCS7#0 assert [C03.cbchmac.seal.padargs] arg0 == old(plaintext) && arg1 == 16
 
 // Open: hh is the keyed hash built for this call, exp the expected (truncated) tag it produced. The tag comparison
 // precedes the first write to dst and every call into AES/CBC/unpadding (at-asserts C03.cbchmac.open.tagfirst.*).
 // Acceptance (result1 == nil) implies that the MAC was computed with macKey over AD ‖ nonce ‖ ciphertext ‖ AL and
 // matched; malformed sizes (nonce not one block, body empty or not whole blocks) are rejected with an error.
 //@ func (*aesCBCAEAD).Open
+//@   refines (crypto/cipher.AEAD).Open
 //@   tags C03 C07 C17
 //@   ghost hh iface
 //@   ghost exp bytes
 //@   ghost explen int
+//@   ghost blk iface
+//@   ghost mode iface
+//@   ghost cbcout slice
+//@   ghost unp slice
 //@   requires aead != nil && inv(aead)
-//@   modifies dst[len(dst):cap(dst)]
+//@   requires [aead.ghosts] box(aead, "*github.com/dapr/kit/crypto/aescbcaead.aesCBCAEAD").overhead == aead.tagSize && box(aead, "*github.com/dapr/kit/crypto/aescbcaead.aesCBCAEAD").noncesize == 16
+//@        && !box(aead, "*github.com/dapr/kit/crypto/aescbcaead.aesCBCAEAD").exactoverhead && box(aead, "*github.com/dapr/kit/crypto/aescbcaead.aesCBCAEAD").cbcpadded
+// C17: exactly the decrypted blocks behind len(dst) (no scratch use of the rest of the spare capacity)
+//@   modifies dst[len(dst):len(dst)+len(ciphertext)-aead.tagSize]
 //@   ensures [C03.cbchmac.open.noplain] result1 != nil ==> result == nil
 //@   ensures [C03.cbchmac.open.short] len(ciphertext) < aead.tagSize ==> result1 != nil
 //@   ensures [C03.cbchmac.open.sizes] (len(nonce) != 16 || (len(ciphertext) - aead.tagSize) % 16 != 0) ==> result1 != nil
@@ -165,7 +199,7 @@ package aescbcaead
 //@   ensures [C03.cbchmac.open.mac.iv] result1 == nil ==> (forall k :: 0 <= k && k < len(nonce) ==> old(nonce[k]) == hh.wlog[len(additionalData) + k])
 //@   ensures [C03.cbchmac.open.mac.ct] result1 == nil ==> (forall k :: 0 <= k && k < len(ciphertext) - aead.tagSize ==> old(ciphertext[k]) == hh.wlog[len(additionalData) + len(nonce) + k])
 //@   ensures [C03.cbchmac.open.mac.tag] result1 == nil ==> (explen == aead.tagSize
-//@        && (forall k :: 0 <= k && k < aead.tagSize ==> exp[k] == digestbyte(hh.hkey, hh.hkeylen, hh.wlog, hh.wpos, k)))
+//@        && (forall k :: 0 <= k && k < aead.tagSize ==> exp[k] == digestbyte(hh.halg, hh.hkey, hh.hkeylen, hh.wlog, hh.wpos, k)))
 //@   ensures [C03.cbchmac.open.accept] result1 == nil ==> (forall k :: 0 <= k && k < aead.tagSize ==> old(ciphertext[len(ciphertext) - aead.tagSize + k]) == exp[k])
 //@   ensures [C03.cbchmac.open.len] result1 == nil ==> (len(dst) <= len(result) && len(result) <= len(dst) + len(ciphertext) - aead.tagSize)
 //@   ensures [C03.cbchmac.open.oneblock] result1 == nil ==> len(ciphertext) >= aead.tagSize + 16   // a sealed message holds at least one CBC block (PKCS#7 always pads)
@@ -178,6 +212,18 @@ package aescbcaead
 //@   at before call NewCipher#0 assert [C03.cbchmac.open.tagfirst.aes] len(ciphertextTag) == aead.tagSize && (forall k :: 0 <= k && k < aead.tagSize ==> ciphertextTag[k] == exp[k])
 //@   at before call CryptBlocks#0 assert [C03.cbchmac.open.tagfirst.cbc] len(ciphertextTag) == aead.tagSize && (forall k :: 0 <= k && k < aead.tagSize ==> ciphertextTag[k] == exp[k])
 //@   at before call NewCipher#0 assert [C03.cbchmac.open.enckey] arg0 == aead.encKey
+// the decryption half (RFC 7518 5.2.2.2 step 3-4): CBC-decrypt the body (everything before the tag) with ENC_KEY and the
+// nonce as IV into the destination, then remove the PKCS#7 padding from exactly those bytes; the result is what remains
+//@   at call NewCipher#0 ghost blk = res0
+//@   at before call NewCBCDecrypter#0 assert [C03.cbchmac.open.iv] arg0 == blk && arg1 == nonce
+//@   at call NewCBCDecrypter#0 ghost mode = res0
+//@   at before call CryptBlocks#0 assert [C03.cbchmac.open.cbc] arg0 == mode && arg2 == old(ciphertext)[0:len(old(ciphertext)) - aead.tagSize] && len(arg1) == len(arg2)
+//@   at before call CryptBlocks#0 assert [C03.cbchmac.open.mode] arg0.modeblock.bkey == aead.encKey && arg0.modeiv == nonce && arg0.modedec
+//@   at before call CryptBlocks#0 ghost cbcout = arg1
+//@   at before call UnpadPKCS7#0 assert [C03.cbchmac.open.unpad] arg0 == cbcout && arg1 == 16
+//@   at call UnpadPKCS7#0 ghost unp = res0
+//@   ensures [C03.cbchmac.open.result] result1 == nil ==> (len(result) == len(dst) + len(unp) && result.base == cbcout.base && result.off + len(dst) == cbcout.off)
+//@   ensures [C03.cbchmac.open.machash] result1 == nil ==> hh.halg == aead.macAlg
 //@   replay template aescbcopen
 //@   replay val ctlen = len(ciphertext)
 //@   replay val noncelen = len(nonce)
